@@ -129,7 +129,8 @@ def rule_env(rf, r, txn, rows, gvars):
     env = dict(gvars)
     for n, e in r.lets:
         try:
-            env[n.lower()] = _ev(e, txn, env, rows)
+            v = _ev(e, txn, env, rows)
+            env[n.lower()] = list(v) if hasattr(v, '__next__') else v      # a generator as a whole value is materialised (every reader sees all of it)
         except lang.RefError:
             env[n.lower()] = None
     return env
@@ -139,7 +140,8 @@ def global_vars(rf, txn, rows):
     g = {}
     for n, e in rf.variables:
         try:
-            g[n.lower()] = _ev(e, txn, {}, rows)
+            v = _ev(e, txn, {}, rows)
+            g[n.lower()] = list(v) if hasattr(v, '__next__') else v
         except lang.RefError:
             pass
     return g
@@ -534,5 +536,5 @@ def gen_csv_rules(rnd, n=None):
                 for _ in range(rnd.choice([0, 0, 1, 2]))]
         if not cat and not tags:
             tags = ['flag']
-        out.append(CsvRule(rnd.choice(CSV_PATTERNS), mods, 'M%d %s' % (i, rnd.choice(['Netflix', 'Uber', 'Shop'])), cat, sub, tags))
+        out.append(CsvRule(rnd.choice(CSV_PATTERNS), mods, ('M%d %s' % (i, rnd.choice(['Netflix', 'Uber', 'Shop']))) if rnd.random() > .06 else '', cat, sub, tags))
     return out
